@@ -181,6 +181,15 @@ class SetWrapper(typing.MutableSet[T]):
 
     # end functions for ABC
 
+    # collections.abc.Set builds the results of &, -, ^ (and, through them,
+    # &= and ^=) with cls._from_iterable, which defaults to cls(it). Subclasses
+    # take an owning node as their first constructor argument, and the result
+    # of a binary operator must not own (and so move) the nodes in it, so
+    # produce a plain set, like __or__ does.
+    @classmethod
+    def _from_iterable(cls, it: typing.Iterable[S]) -> typing.Set[S]:
+        return set(it)
+
     # The version of typing.py which comes with python 3.5.2 doesn't provide
     # definitions for __or__ or clear on MutableSet, so we have to do it
     # ourselves.
